@@ -37,7 +37,13 @@ def make_case(rt, doc, oracle_fn=default_oracle):
     except E.Unencodable:
         return None
     model = f"(run_rule_test {rc} {docc})"
-    oracle = oracle_fn(rc, docc) if oracle_fn else None
+    try:
+        rt.build()
+        buildable = True
+    except Exception:
+        buildable = False     # not a rule (e.g. wrong number of arguments): the specification speaks of rules only;
+                              # the construction error itself is still compared with the model (K)
+    oracle = oracle_fn(rc, docc) if oracle_fn and buildable else None
     nontrivial = outcome[0] == "ok" and outcome[1][0][1] and not outcome[1][0][0]
     descr = {"rule": rt.descr()[:500], "doc": jval(doc), "impl": outcome[0] + ":" + repr(outcome[1])[:400], "coq": model[:4000]}
     return Case(descr, model, oracle, impl, outcome, nontrivial, key=(rt.descr(), repr(doc)[:60]))
